@@ -640,6 +640,35 @@ def validS (f : File Char) : List (Op Char) → Bool
   | [] => true
   | op :: ops => okS f op && validS (Spec.step textSem f op).2 ops
 
+/-! ### the other reading of "io.StringIO": the DEFAULT constructor (`newline='\n'`), lines end at LF only -/
+
+def isLF (c : Char) : Bool := c == '\n'
+
+/-- `io.StringIO()` (default `newline='\n'`): no translation, a line ends at LF only -/
+def lfSem : LineSem Char := ⟨takeLine isLF, splitLines isLF, splitLines isLF⟩
+
+/-- every CR is immediately followed by LF (the text uses LF and CRLF line ends only) -/
+def noLoneCR : List Char → Bool
+  | [] => true
+  | c :: cs =>
+    (if c = '\r' then (match cs with
+                       | d :: _ => decide (d = '\n')
+                       | [] => false) else true) && noLoneCR cs
+
+/-- line-cutting operations (readline, next, iteration, readlines) meet no lone CR in what is left to read -/
+def lfOp (f : File Char) : Op Char → Bool
+  | .readline => noLoneCR f.rest
+  | .readlineN _ => noLoneCR f.rest
+  | .readlines => noLoneCR f.rest
+  | .next => noLoneCR f.rest
+  | .list => noLoneCR f.rest
+  | .drain => noLoneCR f.rest
+  | _ => true
+
+def lfOnly (f : File Char) : List (Op Char) → Bool
+  | [] => true
+  | op :: ops => lfOp f op && lfOnly (Spec.step textSem f op).2 ops
+
 /-! ## 6. MultiFileReader -/
 
 structure MFR (α : Type) where
